@@ -5,7 +5,7 @@
      argsort  : the permutation numpy produced for the 13 squeeze factors
      skin     : property value |-> skin depth as emg3d.meshes.skin_depth returns it *)
 From Coq Require Import ZArith QArith Qround Qabs Bool List.
-From V Require Import Base.FieldSig Base.ExecQ Model.Gridding.
+From V Require Import Base.FieldSig Base.ExecQ Model.Gridding Model.GriddingSession.
 Import ListNotations.
 
 Definition qleb (x y : Q) : bool := Qle_bool x y.
@@ -89,3 +89,29 @@ Definition out_oawin (o : option (@OawIn Q))
   end.
 Definition out_cm_inputs (t : option (@OawIn Q) * option (@OawIn Q) * option (@OawIn Q)) :=
   [out_oawin (fst (fst t)); out_oawin (snd (fst t)); out_oawin (snd t)].
+
+(* ---- one session (Model/GriddingSession.v): outcomes of a history + final heap ----
+   every outcome as (warn codes, code, integers, numbers):
+     100 Done, 101 BadHandle, 102 ValueErr, 103 RInts l,
+     origin_and_widths: as out_oaw (codes 0..4),
+     construct_mesh: 200 + code of out_cm, integers = the three cell counts,
+                     numbers = origin ++ hx ++ hy ++ hz *)
+Definition out_outcome (o : @Outcome Q) : list Z * Z * list Z * list (Z * Z) :=
+  match o with
+  | Done => ([], 100, [], [])
+  | BadHandle => ([], 101, [], [])
+  | ValueErr => ([], 102, [], [])
+  | RInts l => ([], 103, l, [])
+  | ROaw r => out_oaw r
+  | RCm r =>
+      match out_cm r with
+      | (w, c, org, hx, hy, hz) =>
+          (w, 200 + c, [Z.of_nat (length hx); Z.of_nat (length hy); Z.of_nat (length hz)],
+           org ++ hx ++ hy ++ hz)
+      end
+  end%Z.
+Definition out_obj (o : @Obj Q) : Z * list Z * list (Z * Z) :=
+  match o with OInt l => (0%Z, l, []) | ONum l => (1%Z, [], map out_q l) end.
+Definition out_session (r : @Heap Q * list (@Outcome Q))
+  : list (list Z * Z * list Z * list (Z * Z)) * list (Z * list Z * list (Z * Z)) :=
+  (map out_outcome (snd r), map out_obj (fst r)).
